@@ -37,6 +37,9 @@ var purityExprs = []string{
 	"count(reverse(//a))", "string-join(reverse(*), ',')", "boolean(reverse(a))", "string(reverse(//*))", "sum(reverse(*))", "not(reverse(//a))", "count((reverse(*)))",
 	"concat(reverse(*), 'x')", "name(reverse(//*))", "string-length(reverse(a))", "count((//a))", "string((a | *))", "count(reverse(//*)[1])", "reverse(reverse(*))",
 	"not(* = 1)", "not(//*/*[position() < 3] = '1')", "boolean((//*)[2] = '1')", "string(a = (//*)[2])", "not(count(*) + count(//a))", "boolean(a and (*)[2])",
+	// arguments that differ from one context node to the next (scratch state kept between calls shows)
+	"translate(., a, @a)", "translate(a, *, 'x')", "translate('1x', a, @a)", "//*[translate(., a, 'x') = 'x']", "concat(normalize-space(a), concat(*, 'x'))", "string-join(*, string(a))",
+	"normalize-space(concat(a, ' ', *))", "//*[concat(., '!') = '1!' or normalize-space() = '1']", "replace(., string(a), string(@a))", "substring(., count(*) + 1)",
 	"floor(a * number(*))", "count(*) + floor(a * 2)", "string(a + 1)", "floor(a + *)", "//*[floor(a * number(@a)) = 1]", "ceiling(a div *)", "number(a - 1)",
 	"string-length(string(a + 1))", "boolean(a * 0)", "not(a + 1)", "concat(a + 1, 'x')", "round(a * *)", "sum(*) + floor(a)", "//*[ceiling(. + 1) = 2]",
 }
@@ -46,7 +49,7 @@ var purityExprs = []string{
 var twoDocExprs = map[string]bool{
 	"//a": true, "*[last()]": true, "//*[last()]": true, "(//*)[2]": true, "(//a)[last()]": true, "//*[a][last()]": true, "*[@a][last()]": true,
 	"count(//a)": true, "a[last()]/@a": true, "//a[position() = last()]": true, "string((//*)[2])": true, "//*[count(a) = 1][last()]": true, "(//*)[last()]/a": true,
-	"a[. = '1'][last()]": true, "reverse(//a)": true, "string-join(//a, a)": true,
+	"a[. = '1'][last()]": true, "reverse(//a)": true, "string-join(//a, a)": true, "translate(., a, @a)": true, "translate('1x', a, @a)": true, "replace(., string(a), string(@a))": true,
 }
 
 func init() {
